@@ -11,6 +11,7 @@ import (
 	"verif/harness/props/c06"
 	"verif/harness/props/c07"
 	"verif/harness/props/c09"
+	"verif/harness/props/c12"
 	"verif/harness/props/c13"
 	"verif/harness/props/c14"
 	"verif/harness/props/c17"
@@ -30,6 +31,7 @@ func Specs() map[string]*core.Spec {
 		c06.Spec(),
 		c07.Spec(),
 		c09.Spec(),
+		c12.Spec(),
 		c13.Spec(),
 		c14.Spec(),
 		c17.Spec(),
